@@ -36,7 +36,8 @@ func init() {
 				return
 			}
 			var wg sync.WaitGroup
-			wg.Add(4)
+			wg.Add(5)
+			go func() { defer wg.Done(); c01Sizes(c) }()
 			go func() { defer wg.Done(); c01ListenersLogged(c) }()
 			go func() { defer wg.Done(); c01ListenersLimited(c) }()
 			go func() { defer wg.Done(); c01Listeners(c) }()
@@ -349,6 +350,121 @@ func c01ListenersLogged(c *Ctx) {
 		c.Violation("listener:wedged:binary-names", "after valid queries with binary names the proxy no longer answers: "+probeErr.Error(), map[string]any{"err": probeErr.Error()})
 	default:
 		c.Ev.Count("logged_bed_survived", 1)
+	}
+}
+
+// c01Sizes: one valid query of every size from 64 to 1100 octets (and around every power of two up
+// to 64 KiB) over every listener kind and DoH method, followed by undecodable input of the same
+// sizes over DoH GET. Sizes are where fixed buffers, "small message" fast paths and encoded-length
+// computations go wrong. Judged here: the process survives, no handler panics (net/http recovers
+// a handler's panic and logs it), valid queries are answered afterwards.
+func c01Sizes(c *Ctx) {
+	b, err := NewBed(c, "sizes", BedOpts{Upstreams: []string{"pipe"}})
+	if err != nil {
+		c.startFailure(err, "c01-sizes")
+		return
+	}
+	var answered, unanswered atomic.Int64
+	sent := sizeSweep(c, b, "sz", 16, func(v sweepVariant, n int, name string, x xResult) {
+		if x.Err == nil && (x.Status == 0 || x.Status == 200) && len(x.Resp) >= 12 {
+			answered.Add(1)
+		} else {
+			unanswered.Add(1)
+		}
+		c.Ev.Distinct("size-sweep", v.Listener, v.Method, n/64)
+	})
+	c.Ev.Eval(sent)
+	// garbage of every size over DoH GET (the other transports get theirs in the fuzz part)
+	for _, l := range []string{"http", "fasthttp", "https"} {
+		for n := 1; n <= 1100 && b.Proxy.Alive(); n++ {
+			r := gen.New(c.Seed, "c01sizes/"+l, n)
+			g := make([]byte, n)
+			for i := range g {
+				g[i] = byte(r.Intn(256))
+			}
+			if n > 2 {
+				g[2] |= 0x80 // QR=1: never a query
+			}
+			b.Exchange(l, g, xOpts{Timeout: 4 * time.Second, Method: "GET"})
+			c.Ev.Eval(1)
+		}
+	}
+	// datagrams that are a strict prefix of a valid query (cut inside the header, the question or the
+	// OPT record; also the empty datagram), sent right after complete copies of that query: they cannot
+	// be decoded, so they are dropped - a response means the decoder read beyond the datagram
+	if _, ok := b.L["udp"]; ok && b.Proxy.Alive() {
+		var answeredPrefix atomic.Int64
+		parallelFor(c.N(24, 240), 8, func() bool { return answeredPrefix.Load() > 0 || !b.Proxy.Alive() }, func(i int) {
+			r := gen.New(c.Seed, "c01prefix", i)
+			name := fmt.Sprintf("ok-n1-pfx%dx%d.pipe.test.", i, c.Seed)
+			full := paddedQuery(uint16(0x4000+i), name, r.Range(80, 1200))
+			if full == nil {
+				return
+			}
+			warm, err := dnsclient.DialUDP("", b.L["udp"])
+			if err != nil {
+				return
+			}
+			for k := 0; k < 6; k++ {
+				warm.Send(full)
+			}
+			time.Sleep(30 * time.Millisecond)
+			warm.Close()
+			cuts := []int{0, 1, 2, 3, 11, 12, 13, 12 + len(name)/2, 12 + len(name) + 1 + 3, len(full) - 1, r.Range(14, len(full)-2), r.Range(14, len(full)-2)}
+			for _, cut := range cuts {
+				pfx := full[:cut]
+				if new(dns.Msg).Unpack(pfx) == nil {
+					continue // (a prefix never decodes; belt and braces)
+				}
+				cl, err := dnsclient.DialUDP("", b.L["udp"])
+				if err != nil {
+					continue
+				}
+				cl.Send(pfx)
+				time.Sleep(120 * time.Millisecond)
+				got := cl.Received()
+				cl.Close()
+				c.Ev.Eval(1)
+				c.Ev.Distinct("udp-prefix", min(cut, 14), len(full)/256)
+				if len(got) > 0 {
+					answeredPrefix.Add(1)
+					c.Violation("listener:udp:answered-undecodable-datagram", fmt.Sprintf("a UDP datagram of %d octets - the first %d octets of a valid %d-octet query sent just before - cannot be decoded, yet it was answered with %d octets (%x...): the decoder read beyond the end of the datagram", cut, cut, len(full), len(got[0].Data), got[0].Data[:min(len(got[0].Data), 24)]),
+						map[string]any{"cut": cut, "full_len": len(full), "query": hex.EncodeToString(full)})
+					return
+				}
+			}
+		})
+	}
+	c.Ev.Count("size_sweep_valid_queries_answered", answered.Load())
+	c.Ev.Count("size_sweep_valid_queries_not_answered(judged by C03)", unanswered.Load())
+	var probeErr error
+	if b.Proxy.Alive() {
+		for _, l := range allListeners {
+			if probeErr = c01Probe(b, l, fmt.Sprintf("ok-after-sizes%d.pipe.test.", c.Seed)); probeErr != nil {
+				probeErr = c01Probe(b, l, fmt.Sprintf("ok-after-sizes2x%d.pipe.test.", c.Seed))
+			}
+			if probeErr != nil {
+				probeErr = fmt.Errorf("%s: %w", l, probeErr)
+				break
+			}
+		}
+	}
+	alive := b.Proxy.Alive()
+	recovered := b.Proxy.LogContains("panic serving")
+	tail := ""
+	if recovered {
+		tail = b.Proxy.LogTail(40)
+	}
+	res := b.Stop()
+	switch {
+	case !alive || res.Panic != "" && res.DiedBeforeStop:
+		c.Violation("listener:proxy-crash:size-sweep", "the proxy crashed while it was sent one query of every size: "+res.Panic, map[string]any{"panic": res.Panic})
+	case recovered:
+		c.Violation("listener:handler-panic:size-sweep", "a DoH handler panicked (recovered by net/http) while the proxy was sent one query of every size:\n"+tail, map[string]any{"log": tail})
+	case probeErr != nil:
+		c.Violation("listener:wedged:size-sweep", "after one query of every size the proxy no longer answers: "+probeErr.Error(), map[string]any{"err": probeErr.Error()})
+	default:
+		c.Ev.Count("size_sweep_bed_survived", 1)
 	}
 }
 
